@@ -168,6 +168,39 @@ impl Prop for C02 {
                 }
             }
         }
+        // chains of three: every arrangement of plain numbers, quantities in one unit and quantities
+        // in an incommensurable unit under + and - (left to right: a plain number adopts the unit it
+        // meets, also when it is itself the sum of two plain numbers; a unit once carried must be
+        // checked against every later operand)
+        for (u, v) in [("m", "s"), ("km", "h"), ("N", "J"), ("s^-1", "m^-1"), ("kJ/kg", "kg")] {
+            for shape in 0..27usize {
+                for ops in 0..4usize {
+                    let kinds = [shape % 3, shape / 3 % 3, shape / 9];
+                    let vals = ["1", "2", "3"];
+                    let mut q = String::new();
+                    for i in 0..3 {
+                        if i > 0 {
+                            q.push_str(if (ops >> (i - 1)) & 1 == 0 { " + " } else { " - " });
+                        }
+                        q.push_str(vals[i]);
+                        match kinds[i] {
+                            1 => q.push_str(&format!(" {u}")),
+                            2 => q.push_str(&format!(" {v}")),
+                            _ => {}
+                        }
+                    }
+                    sink(Case::with("chain3", q, serde_json::json!({"kinds": kinds, "ops": ops, "u": u, "v": v})));
+                }
+            }
+        }
+        // a plain number cast twice: it adopts the first target and is *converted* to the second
+        for a in ["m", "km", "cm", "ft", "s", "min", "N", "J", "kJ/kg", "m^2"] {
+            for b in ["m", "km", "cm", "ft", "s", "min", "N", "J", "kJ/kg", "m^2"] {
+                for lhs in ["5", "2 * 3", "(1 + 1)"] {
+                    sink(Case::with("plain-to-to", format!("{lhs} to {a} to {b}"), serde_json::json!({"a": a, "b": b, "x": if lhs == "5" { 5 } else if lhs == "2 * 3" { 6 } else { 2 }})));
+                }
+            }
+        }
         for q in &s {
             sink(Case::with("plain-left", format!("2 + 1 {q}"), serde_json::json!({"q": q})));
             sink(Case::with("plain-right", format!("1 {q} + 2"), serde_json::json!({"q": q})));
@@ -202,6 +235,80 @@ impl Prop for C02 {
             Ok(r) => r,
             Err(why) => return fw::fail(format!("results:{}", case.fam), format!("{q}: {why}")),
         };
+        if case.fam == "plain-to-to" {
+            let (a, b) = (case.data["a"].as_str().unwrap(), case.data["b"].as_str().unwrap());
+            let (ma, mb) = (meaning(a), meaning(b));
+            let x = BigRational::from_integer(BigInt::from(case.data["x"].as_i64().unwrap()));
+            return match (&got, ma.dim == mb.dim) {
+                (Res::Err { .. }, false) => fw::pass(true, 1),
+                (Res::Ok { .. }, false) => fw::fail("plain-to-to:accepted", format!("{q}: [{a}] and [{b}] are incommensurable but the tool returned {}", got.short())),
+                (Res::Err { msg, .. }, true) => fw::fail("plain-to-to:refused", format!("{q}: refused: {msg}")),
+                (Res::Ok { value, unit, unit_text }, true) => {
+                    let si = match units::si_of(value, unit, false) {
+                        Ok(si) => si,
+                        Err(e) => return fw::fail("unit-table", format!("{q}: {e}")),
+                    };
+                    let want = &x * &ma.scale;
+                    if si.value != want || si.dim != ma.dim {
+                        return fw::fail("plain-to-to:value", format!("{q}: the number adopts [{a}] and is then converted: expected SI {want} [{}], got {} (displayed {})", tables::dim_text(&ma.dim), si.short(), got.short()));
+                    }
+                    if let Ok(Res::Ok { unit: bu, unit_text: bt, .. }) = obs::eval_one(env.db(), &format!("1 {b}")) {
+                        if &bu != unit {
+                            return fw::fail("plain-to-to:not-in-target-unit", format!("{q}: result is in [{unit_text}], target reads as [{bt}]"));
+                        }
+                    }
+                    fw::pass(true, fw::hash_str(&si.short()))
+                }
+            };
+        }
+        if case.fam == "chain3" {
+            // left to right; state = (value, unit carried so far: 0 none, 1 = u, 2 = v)
+            let kinds: Vec<u64> = case.data["kinds"].as_array().unwrap().iter().map(|k| k.as_u64().unwrap()).collect();
+            let ops = case.data["ops"].as_u64().unwrap();
+            let int = |n: i64| BigRational::from_integer(BigInt::from(n));
+            let mut val = int(1);
+            let mut unit = kinds[0];
+            let mut error = false;
+            for i in 1..3 {
+                let x = int(i as i64 + 1);
+                val = if (ops >> (i - 1)) & 1 == 0 { val + x } else { val - x };
+                match (unit, kinds[i]) {
+                    (0, k) => unit = k,
+                    (_, 0) => {}
+                    (a, b) if a == b => {}
+                    _ => {
+                        error = true;
+                        break;
+                    }
+                }
+            }
+            let class = format!("chain3:{}{}{}", kinds[0], kinds[1], kinds[2]);
+            return match (&got, error) {
+                (Res::Err { .. }, true) => fw::pass(true, 1),
+                (Res::Ok { .. }, true) => fw::fail(format!("{class}:accepted"), format!("{q}: an operand is incommensurable with the unit the chain carries, but the tool returned {}", got.short())),
+                (Res::Err { msg, .. }, false) => fw::fail(format!("{class}:refused"), format!("{q}: every operand is a plain number or in one unit, but the tool refused: {msg}")),
+                (Res::Ok { value, unit: gu, .. }, false) => {
+                    let want_unit = match unit {
+                        0 => None,
+                        1 => Some(meaning(case.data["u"].as_str().unwrap())),
+                        _ => Some(meaning(case.data["v"].as_str().unwrap())),
+                    };
+                    let si = match units::si_of(value, gu, false) {
+                        Ok(si) => si,
+                        Err(e) => return fw::fail("unit-table", format!("{q}: {e}")),
+                    };
+                    let (ws, wd) = match &want_unit {
+                        None => (val.clone(), tables::DIM0),
+                        Some(m) => (&val * &m.scale, m.dim.clone()),
+                    };
+                    if si.value == ws && si.dim == wd && (want_unit.is_some() || gu.is_empty()) {
+                        fw::pass(true, fw::hash_str(&si.short()))
+                    } else {
+                        fw::fail(format!("{class}:value"), format!("{q}: expected SI {} [{}], got {} (displayed {})", ws, tables::dim_text(&wd), si.short(), got.short()))
+                    }
+                }
+            };
+        }
         // The statement constrains accepted unit words only; a prefixed word
         // the tool rejects outright (`kton` lexes as kt+on) is C05's business.
         if let Res::Err { .. } = &got {
